@@ -156,9 +156,14 @@ def iter (s : Sketch α) : List (Point α × Nat) := iterFrom 0 s.levels
 section est
 variable [Scalar α]
 
+/-- `(1 << height)` as `get_estimate` evaluates it: in 32-bit `int`, then converted to `T`.  `2^h` for `h < 31`;
+`INT_MIN = -2^31` for `h = 31` (what g++ produces; finding `ds_estimate_nonneg_full_false`); for `h ≥ 32` the shift is
+undefined behaviour (`estimateUB`; the value given here is then irrelevant).  The iterator uses `1ULL << height_`. -/
+def estWeight (h : Nat) : α := if h < 31 then Scalar.ofNat (2 ^ h) else Scalar.neg (Scalar.ofNat (2 ^ 31))
+
 /-- inner loop of `get_estimate`: `density += (1 << height) * kernel_(p, point) / n_` -/
 def estLevel (K : Point α → Point α → α) (q : Point α) (n h : Nat) (acc : α) (lvl : Level α) : α :=
-  lvl.foldl (fun d p => Scalar.add d (Scalar.div (Scalar.mul (Scalar.ofNat (2 ^ h)) (K p q)) (Scalar.ofNat n))) acc
+  lvl.foldl (fun d p => Scalar.add d (Scalar.div (Scalar.mul (estWeight h) (K p q)) (Scalar.ofNat n))) acc
 
 def estFrom (K : Point α → Point α → α) (q : Point α) (n : Nat) : Nat → α → List (Level α) → α
   | _, acc, [] => acc
@@ -169,6 +174,9 @@ def estimate (K : Point α → Point α → α) (s : Sketch α) (q : Point α) :
   estFrom K q s.n 0 Scalar.zero s.levels
 
 def estimateThrows (s : Sketch α) : Bool := s.numRetained == 0
+
+/-- `get_estimate` executes `1 << height` with `height ≥ 32` (undefined behaviour) iff a level of height ≥ 32 holds a point -/
+def estimateUB (s : Sketch α) : Bool := (s.levels.drop 32).any (fun l => !l.isEmpty)
 
 /-! ### concrete picker: what `compact_level` computes -/
 
